@@ -24,29 +24,89 @@ pub struct C02Case {
     /// first block arrives
     #[serde(default)]
     pub warm: bool,
+    /// torn deliveries: bit k%64 set = item k first arrives damaged (as a file-synchronisation tool that
+    /// writes in place would leave it when interrupted), a refresh runs, then the intact bytes replace it
+    #[serde(default)]
+    pub torn: u64,
+    #[serde(default)]
+    pub torn_kind: u8,
+    /// transient read failures: bit k%64 set = after item k arrived, a first refresh runs while reads of
+    /// the receiver's own storage fail (by suffix and mask derived from k); the regular refresh follows
+    #[serde(default)]
+    pub flaky: u64,
 }
 
 pub fn strategy(thorough: bool) -> BoxedStrategy<C02Case> {
     let mix = Mix { update: 9, commit: 7, meldrefresh: 6, filecopy: 1, resolve: 2, timetravel: 1, snapshot: 1, rich: true, rich_info: true, ..Mix::default() };
     let len = if thorough { 60 } else { 30 };
-    (2u8..=3, gen::history(&mix, len), any::<u64>(), prop::option::of(any::<u64>()), prop::bool::weighted(0.3), prop::bool::weighted(0.3))
-        .prop_map(|(n, ops, perm, listing, packs_last, warm)| C02Case {
+    (2u8..=3, gen::history(&mix, len), any::<u64>(), prop::option::of(any::<u64>()), prop::bool::weighted(0.3), prop::bool::weighted(0.3), prop_oneof![2 => Just(0u64), 1 => any::<u64>(), 1 => (any::<u64>(), any::<u64>()).prop_map(|(a, b)| a & b)], any::<u8>(), prop_oneof![2 => Just(0u64), 1 => any::<u64>(), 1 => (any::<u64>(), any::<u64>()).prop_map(|(a, b)| a & b)])
+        .prop_map(|(n, ops, perm, listing, packs_last, warm, torn, torn_kind, flaky)| C02Case {
             hist: Case { n, perms: vec![None; 3], ops, fin: Some(FinPlan { commit: vec![true; 3], deliveries: vec![], final_mode: vec![0; 3] }) },
             perm,
             listing,
             packs_last,
             warm,
+            torn,
+            torn_kind,
+            flaky,
         })
         .boxed()
 }
 
-fn deliver(w: &mut World, order: &[String], src: &Snap, full_obs: &Obs) -> R<()> {
+fn deliver(w: &mut World, order: &[String], src: &Snap, full_obs: &Obs, torn: u64, torn_kind: u8, flaky: u64) -> R<()> {
     let mut arrived = Snap::new();
     for (k, name) in order.iter().enumerate() {
         let bytes = &src[name];
+        if (torn >> (k % 64)) & 1 == 1 && !bytes.is_empty() {
+            // the item first arrives damaged; a refresh runs (it may report an error, it may not change
+            // the visible state and must not abort); then the intact bytes replace the damaged ones
+            let mut bad = bytes.clone();
+            match (torn_kind as usize + k) % 3 {
+                0 => bad.truncate(bytes.len() / 2),
+                1 => bad.truncate(bytes.len() - 1),
+                _ => {
+                    let p = (torn_kind as usize * 7 + k * 13) % bad.len();
+                    bad[p] ^= 0x20;
+                }
+            }
+            let before = obs(&w.reps[0].m)?;
+            w.reps[0].store.set_raw(name, bad);
+            let r = guard("refresh", || w.reps[0].m.refresh())?;
+            w.log.push(format!("deliver #{} {} DAMAGED first; refresh -> {:?}", k, name, r.as_ref().map_err(|e| e.to_string())));
+            let after = obs(&w.reps[0].m)?;
+            if before != after {
+                return viol("C02", format!("a damaged copy of {} changed the visible state: {}", name, first_diff(&before, &after)));
+            }
+            w.reps[0].store.set_raw(name, bytes.clone());
+            w.bump("c02_torn_then_completed_deliveries");
+            if name.ends_with(".pack") {
+                w.bump("c02_torn_packs");
+            }
+        }
         w.reps[0].store.put_raw(name, bytes);
         arrived.insert(name.clone(), bytes.clone());
         w.log.push(format!("deliver #{} {}", k, name));
+        if (flaky >> (k % 64)) & 1 == 1 {
+            // a refresh during which reads of the replica's own storage fail transiently: it may report an
+            // error or apply less, it must not abort; the regular refresh below must then catch up fully
+            let suffix = [".pack", ".delta", ""][k % 3].to_string();
+            let mask = flaky.rotate_left((k % 61) as u32) | 1;
+            w.reps[0].store.with(|s| {
+                s.read_faults = Some((suffix.clone(), mask));
+                s.reads_in_fault = 0;
+                s.failed_reads = 0;
+            });
+            let r = guard("refresh", || w.reps[0].m.refresh());
+            let failed = w.reps[0].store.with(|s| {
+                s.read_faults = None;
+                s.failed_reads
+            });
+            let r = r?;
+            w.log.push(format!("   refresh with failing reads of {:?} (mask {:#x}, {} reads failed) -> {:?}", suffix, mask, failed, r.as_ref().map_err(|e| e.to_string())));
+            if failed > 0 {
+                w.bump("c02_refreshes_with_failed_reads");
+            }
+        }
         // refresh + (a) incremental == reload, (b) applied == closure
         w.op_refresh(0)?;
         // (c) nothing held back leaks: equal to a replica that only ever saw the closure
@@ -139,7 +199,7 @@ pub fn run(case: &C02Case, thorough: bool) -> CaseRes {
             w2.op_unstage(0)?;
             *cnt.entry("c02_warm_receiver_submissions").or_insert(0) += 1;
         }
-        let r = deliver(&mut w2, order, &src, &full_obs);
+        let r = deliver(&mut w2, order, &src, &full_obs, case.torn, case.torn_kind, case.flaky);
         for (k, v) in &w2.cnt {
             *cnt.entry(k).or_insert(0) += v;
         }
